@@ -8,7 +8,7 @@ PROPS = {
                   "(tags x age x referenced x status x type) under the real gcSecondaryENI/gcMemberENI with a call-time monitor on every Detach/Delete",
         rule="(a) TestVerifC11ClosedLoop: C10's history generator with every pod's first interface fixed-IP (TTL >= 5 min or Never); non-trivial as in C10 (recreate / rollback / leave-while-attaching). "
              "(b) TestVerifC11Retention: 1..3 seeded records (phase drawn from all six, 1..3 allocations each Elastic / Fixed TTL / Fixed Never / unset / unknown strategy, releaseAfter valid, unparsable or negative, "
-             "podLastSeen = now - D with D in {0..2 s, TTL - m, TTL + m, 10 x TTL, unset}, m in {3,5,10} s, pod absent / alive / exited / terminating, UID matching or not; only reachable states: a record in Detaching/Deleting never carries the UID of a pod that still exists) and 1..8 actions "
+             "podLastSeen = now - D with D in {0..2 s, TTL - m, TTL + m, 10 x TTL, unset}, m in {3,5,10} s, pod absent / alive / exited / terminating on a drawn node (a quarter of the pods carry no pod-eni annotation and live on the exclusive-ENI node, so outside CRD mode only the node label makes the collector keep them), UID matching or not; only reachable states: a record in Detaching/Deleting never carries the UID of a pod that still exists) and 1..8 actions "
              "(gcCR with optional API fault, pod gone / exit / delete / recreate, ReconcilePod, ReconcilePodENI; a quarter of the gcCR passes have an action interleaved right AFTER the collector took its List snapshot and before it walks it: a whole pod incarnation (recreated, reconciled until Bind, gone, reconciled to Unbind) or a single pod event / reconcile, on a fake client that enforces resourceVersion conflicts), in a third of the cases followed by a script [gcCR (pod observed), pod leaves, reconcilers finish the transition to Unbind, gcCR]; non-trivial = a last-seen age within 30 s of a TTL boundary or >= 2 allocations with different strategies. "
              "(c) TestVerifC11LeakGC: the zone of the controller process (time.Local) is drawn per case (UTC, +8, +1, -8, -5 h; set for the duration of the case and restored), 1..8 interfaces, each starting as reapable (both tags ours, age > 10 min, Secondary/Available or Member/InUse, unreferenced) with 0..2 conditions spoiled "
              "(cluster tag other/absent, creator tag other/absent, age 0 / 30 s / 10 min - m / unparsable, other status, other type, referenced by a seeded record), m in {3,5,20} s, then 1..4 collector passes "
